@@ -86,10 +86,12 @@ fn registry() -> Vec<PropDef> {
         prop_bfs!("C12", c12),
         prop!("C14", c14),
         prop_bfs!("C15", c15),
+        prop_bfs!("C18", c18),
         prop!("C13", c13),
         prop!("C16", c16),
         prop!("C17", c17),
         prop!("C19", c19),
+        prop!("C20", c20),
     ]
 }
 
@@ -189,6 +191,9 @@ fn main() {
                 Ok(s) => println!("{}", s),
                 Err(e) => println!("replay error: {}", e),
             }
+        }
+        "libref" => {
+            std::process::exit(props::c20::libref_main(&args[2..]));
         }
         "script" => {
             // debugging aid: run a script file with the SDK, dump variables and abstract state
